@@ -8,6 +8,7 @@
 -/
 import GojaModel.C16.Lemmas
 import GojaModel.C16.NamesLemmas
+import GojaModel.C16.Clone
 import GojaModel.Generated.C16_Share
 namespace GojaModel.C16
 
@@ -85,6 +86,15 @@ theorem memo_once_single_write (sv : Nat) (sched : List (Nat × Op)) (h : ∀ x 
   intro hne
   exact inv.late2 hne t ht
 
+/-- A string that was scanned by its constructor before being published (newScannedImportedString: Go strings of at
+most 16 bytes with non-ASCII content, runtime.go toValue) is race free and value-correct as well: every thread sees the
+flag set, nobody scans again, `u` is only ever read. -/
+theorem memo_prescanned_drf (sv : Nat) (sched : List (Nat × Op)) (h : ∀ x ∈ sched, x.2 ≠ .raw) :
+    (runM onceCfg sv (initScanned sv) sched).raced = false ∧ (runM onceCfg sv (initScanned sv) sched).bad = false ∧
+    ∀ a ∈ (runM onceCfg sv (initScanned sv) sched).histU, a.wr = false :=
+  let inv := pinv_run sv sched h _ (pinv_init sv)
+  ⟨inv.nr, inv.nb, inv.rd⟩
+
 /-- The schedule of `memo_unsync_prefix_witness`: thread 0 forces the scan to completion, then thread 1 tests the flag. -/
 def raceSched : List (Nat × Op) :=
   [(0, .force), (0, .force), (0, .force), (0, .force), (0, .force), (0, .force), (1, .force), (1, .force)]
@@ -148,32 +158,84 @@ function scopes that are not `extensible`; the writers of a names map are create
 (Tie.names_writers_expected, Tie.binding_call_sites).  `allH` is the compiler's side of the contract — bindVars only
 ever targets a scope compiled `extensible` (every site sets `extensible: <scope>.dynamic`, Tie.extensible_sites). -/
 
-/-- Under that contract NO sequence of scope entries/exits, per-iteration copies, eval-var declarations and deletions,
-run by ANY number of Runtimes in ANY interleaving, writes a Program-owned names map. -/
+/-- Under that contract NO sequence of scope entries/exits, per-iteration copies, closure calls / returns / generator
+resumptions (`switch`: the current chain becomes any sequence of stashes the Runtime ever created), eval-var
+declarations and deletions, run by ANY number of Runtimes in ANY interleaving, writes a Program-owned names map. -/
 theorem names_program_maps_readonly (bound : Nat) (st : Names.St) (ops : List (Nat × Names.Op))
     (hb : bound ≤ st.next)
     (hclean : ∀ id, id < bound → ∀ e ∈ st.maps id, e.deletable = false)
-    (hshape : ∀ rt, ∀ s ∈ st.stacks rt, (s.own = false → s.map < bound) ∧ (s.own = true → bound ≤ s.map ∧ s.map < st.next))
+    (hshape : ∀ rt, ∀ s ∈ st.pool rt, (s.own = false → s.map < bound) ∧ (s.own = true → bound ≤ s.map ∧ s.map < st.next))
+    (hsub : ∀ rt, ∀ s ∈ st.stacks rt, s ∈ st.pool rt)
     (hH : Names.allH bound st ops = true) :
     ∀ id, id < bound → (Names.run bound st ops).maps id = st.maps id :=
-  (Names.ninv_run ops st ⟨hb, fun _ _ => rfl, hclean, hshape⟩ hH).ro
+  (Names.ninv_run ops st ⟨hb, fun _ _ => rfl, hclean, hshape, hsub⟩ hH).ro
 
-/-- … and what Runtime r sees of its scope chain (the contents of every names map on it) is not changed by any
-sequence of operations of the OTHER Runtimes: private copies are private, shared maps are never written. -/
+/-- … and nothing Runtime r can reach — the names maps on its current scope chain AND on every stash it ever created
+(captured by closures, suspended in generators) — is changed by any sequence of operations of the OTHER Runtimes:
+private copies are private, shared maps are never written. -/
 theorem names_others_invisible (bound : Nat) (st : Names.St) (r : Nat) (ops : List (Nat × Names.Op))
     (hb : bound ≤ st.next)
     (hclean : ∀ id, id < bound → ∀ e ∈ st.maps id, e.deletable = false)
-    (hshape : ∀ rt, ∀ s ∈ st.stacks rt, (s.own = false → s.map < bound) ∧ (s.own = true → bound ≤ s.map ∧ s.map < st.next))
+    (hshape : ∀ rt, ∀ s ∈ st.pool rt, (s.own = false → s.map < bound) ∧ (s.own = true → bound ≤ s.map ∧ s.map < st.next))
+    (hsub : ∀ rt, ∀ s ∈ st.stacks rt, s ∈ st.pool rt)
     (hpriv : Names.Priv st) (hr : ∀ x ∈ ops, x.1 ≠ r) (hH : Names.allH bound st ops = true) :
-    Names.view (Names.run bound st ops) r = Names.view st r :=
-  Names.others_invisible r ops st ⟨hb, fun _ _ => rfl, hclean, hshape⟩ hpriv hr hH
+    Names.view (Names.run bound st ops) r = Names.view st r ∧
+    Names.poolView (Names.run bound st ops) r = Names.poolView st r :=
+  Names.others_invisible r ops st ⟨hb, fun _ _ => rfl, hclean, hshape, hsub⟩ hpriv hr hH
+
+/-- The hypotheses are those of a freshly compiled Program before any Runtime touched it. -/
+theorem names_initial_state_ok (bound : Nat) (maps : Nat → Names.NMap) :
+    let st : Names.St := { maps := maps, next := bound, pool := fun _ => [], stacks := fun _ => [] }
+    bound ≤ st.next ∧ (∀ rt, ∀ s ∈ st.pool rt, (s.own = false → s.map < bound) ∧ (s.own = true → bound ≤ s.map ∧ s.map < st.next)) ∧
+    (∀ rt, ∀ s ∈ st.stacks rt, s ∈ st.pool rt) ∧ Names.Priv st := by
+  refine ⟨Nat.le_refl _, ?_, ?_, ?_⟩
+  · intro rt s hs; simp at hs
+  · intro rt s hs; simp at hs
+  · intro q1 q2 _ s1 h1; simp at h1
 
 /-- The contract is needed: if a scope that gets an eval-declared variable aliases the Program's map (an
-`extensible` copy dropped), the Program's map is written and another Runtime sees the binding. -/
+`extensible` copy dropped — the C16-m2 class), the Program's map is written and another Runtime sees the binding. -/
 theorem names_alias_write_witness :
-    let st : Names.St := { maps := fun _ => [⟨"a", 0, false⟩], next := 1, stacks := fun _ => [] }
+    let st : Names.St := { maps := fun _ => [⟨"a", 0, false⟩], next := 1, pool := fun _ => [], stacks := fun _ => [] }
     let ops : List (Nat × Names.Op) := [(0, .enterFunc 0 false), (1, .enterFunc 0 false), (0, .bindVar "q" true)]
     (Names.run 1 st ops).maps 0 ≠ st.maps 0 ∧ Names.view (Names.run 1 st ops) 1 ≠ Names.view (Names.run 1 st (Names.onlyOf 1 ops)) 1 := by
+  decide
+
+/-- The compiler's side of the contract, from the four tied facts (R1)–(R4) of Names.lean: when a direct eval is
+compiled in a scope chain whose innermost variable scope is not strict, then at run time — whatever other scopes have
+stashes — the stash bindVars targets owns a private copy, i.e. `hOK` holds for the eval's `var` declarations. -/
+theorem compiler_contract_gives_hOK (st : Names.St) (rt : Nat) (cs : List Names.CScope) (v : Names.CScope)
+    (hchain : st.stacks rt = Names.rtChain (Names.markEval cs))
+    (hv : Names.firstVar cs = some v) (hs : v.strict = false) (n : String) (d : Bool) :
+    Names.hOK st rt (.bindVar n d) = true := by
+  simp only [Names.hOK]
+  split
+  · next t ht => exact Names.contract_target_own cs v hv hs t (hchain ▸ ht)
+  · rfl
+
+/-! ### Per-use clones (Clone.lean): regexp literals and tagged templates -/
+
+/-- As long as run-time objects are built on per-use clones (the `call $.pattern clone` / `arg0 cloneTemplateValues`
+rows of the exec table), NO sequence of object creations and writes (lastIndex / match cache / createRegexp2 /
+Object.freeze …) by ANY number of Runtimes in ANY interleaving changes a Program-owned cell. -/
+theorem clone_program_cells_readonly (bound : Nat) (st : Clone.St) (ops : List (Nat × Clone.Op))
+    (hinv : Clone.CInv bound st) (hops : ∀ x ∈ ops, Clone.usesClone x.2 = true) :
+    ∀ c, c < bound → (Clone.run bound st ops).val c = st.val c :=
+  (Clone.run_prog_unchanged ops st hinv hops).2
+
+/-- … and the cells Runtime r holds references to (its RegExp objects' patterns and caches, its template arrays' slots)
+are not changed by any sequence of operations of the other Runtimes. -/
+theorem clone_others_invisible (bound : Nat) (st : Clone.St) (r : Nat) (ops : List (Nat × Clone.Op))
+    (hinv : Clone.CInv bound st) (hops : ∀ x ∈ ops, Clone.usesClone x.2 = true) (hr : ∀ x ∈ ops, x.1 ≠ r) :
+    (Clone.run bound st ops).wrefs r = st.wrefs r ∧ ∀ c ∈ st.wrefs r, (Clone.run bound st ops).val c = st.val c :=
+  Clone.run_others_unchanged r ops st hinv hops hr
+
+/-- The clones are needed (seeded change C16-m1, the pre-85b307c template code): an object built on the Program's own
+cell lets one Runtime's write reach the Program and the other Runtime's object. -/
+theorem clone_alias_write_witness :
+    let st : Clone.St := { val := fun _ => 0, next := 1, wrefs := fun _ => [] }
+    let ops : List (Nat × Clone.Op) := [(0, .aliasUse 0), (1, .aliasUse 0), (0, .write 0 7)]
+    (Clone.run 1 st ops).val 0 ≠ st.val 0 ∧ 0 ∈ (Clone.run 1 st ops).wrefs 1 := by
   decide
 
 /-- Read-only shared memory cannot race: a location whose history holds only reads never conflicts with another
